@@ -29,7 +29,8 @@ AuthCount == Cardinality({p \in 1..Len(Ev.auth) : Ev.auth[p]})
 StrictNext ==
   /\ l < Len(Log) /\ l' = l + 1 /\ UNCHANGED <<tid, seen>>
   /\ Bind
-  /\ (Ev.exact /\ ~Ev.near) => \A p \in 0..(Ev.n - 1) : Ev.auth[p + 1] = M!Authorised(p, Ev.t)'
+  /\ LET e == Ev IN
+       (e.exact /\ ~e.near) => \A p \in 0..(e.n - 1) : e.auth[p + 1] = M!Auth(e.n, e.S, e.m, p, e.t)
   /\ Reached(tid, l')
 
 ObsNext ==
